@@ -82,6 +82,10 @@ type ExecDouble struct {
 	// Reopen, when set, is called whenever the node starts: it returns the Inner to use from then on (a new
 	// executor instance on the same database - the execution layer restarts with the node).
 	Reopen func() coreexecutor.Executor
+	// Fresh, when set, returns a new instance of the same execution layer on an EMPTY database: the observer replays
+	// the stored chain into it and compares the roots with the ones the headers carry (an execution layer with its
+	// own durable state can drift away from what the stored chain says)
+	Fresh func() coreexecutor.Executor
 	// TxsGate, when non-nil, is received from before GetTxs proceeds (a mempool query that stalls); honours the context.
 	TxsGate chan struct{}
 	// AtGate, when set, is called when a call starts waiting at its gate ("exec" / "final" / "gettxs").
